@@ -45,11 +45,11 @@ fn args_body<const N: usize>(s: &SymStr<N>) {
 
 fn brackets<const N: usize>(n: usize, tail: u8) -> [u8; N] { let mut b = [b'['; N]; b[n] = tail; b }
 
-//# {"id":"c02_args_size_t2","props":["C02","C18"],"tier":"quick","cap":900,"bound":"all method descriptors (??)V with ? any ASCII byte (two one-byte parameters, one array parameter, () followed by garbage ...); checked whenever the parameter list is well-formed; unwind 8","fns":["duke::tree::method::MethodDescriptorSlice::get_arguments_size"]}
-//# {"id":"c02_args_size_t_arr1","props":["C02","C18"],"tier":"quick","cap":900,"bound":"all method descriptors ([?)V: an array of long/double counts one slot; unwind 8","fns":["MethodDescriptorSlice::get_arguments_size"]}
-//# {"id":"c02_args_size_t_arr2","props":["C02","C18"],"tier":"thorough","cap":2400,"bound":"all method descriptors (?[?)V; unwind 9","fns":["MethodDescriptorSlice::get_arguments_size"]}
-//# {"id":"c02_args_size_t_arr3","props":["C02","C18"],"tier":"thorough","cap":2400,"bound":"all method descriptors ([??)V; unwind 9","fns":["MethodDescriptorSlice::get_arguments_size"]}
-//# {"id":"c02_args_size_t_obj","props":["C02","C18"],"tier":"quick","cap":900,"bound":"all method descriptors (L?;?)V: an object parameter followed by a one-byte parameter; unwind 9","fns":["MethodDescriptorSlice::get_arguments_size"]}
+//# {"id":"c02_args_size_t2","props":["C02"],"tier":"quick","cap":900,"bound":"all method descriptors (??)V with ? any ASCII byte (two one-byte parameters, one array parameter, () followed by garbage ...); checked whenever the parameter list is well-formed; unwind 8","fns":["duke::tree::method::MethodDescriptorSlice::get_arguments_size"]}
+//# {"id":"c02_args_size_t_arr1","props":["C02"],"tier":"quick","cap":900,"bound":"all method descriptors ([?)V: an array of long/double counts one slot; unwind 8","fns":["MethodDescriptorSlice::get_arguments_size"]}
+//# {"id":"c02_args_size_t_arr2","props":["C02"],"tier":"thorough","cap":2400,"bound":"all method descriptors (?[?)V; unwind 9","fns":["MethodDescriptorSlice::get_arguments_size"]}
+//# {"id":"c02_args_size_t_arr3","props":["C02"],"tier":"thorough","cap":2400,"bound":"all method descriptors ([??)V; unwind 9","fns":["MethodDescriptorSlice::get_arguments_size"]}
+//# {"id":"c02_args_size_t_obj","props":["C02"],"tier":"quick","cap":900,"bound":"all method descriptors (L?;?)V: an object parameter followed by a one-byte parameter; unwind 9","fns":["MethodDescriptorSlice::get_arguments_size"]}
 //# {"id":"c16_dims_limit","props":["C16","C18"],"tier":"thorough","cap":5400,"bound":"the strings [*255 ? and [*256 ? with a symbolic element byte ?: field descriptor parse and ArrClassName/ClassName::is_valid accept exactly up to 255 dimensions (JVMS 4.3.2) and never panic; unwind 260","fns":["duke::tree::descriptor::read_field_type","FieldDescriptorSlice::parse","duke::tree::names::is_valid_arr_class_name"]}
 proofs! {
 	#[cfg_attr(kani, kani::unwind(8))]
